@@ -37,7 +37,8 @@ def exhaustive(tier):
 
 
 def model_runs(tier):
-    return []
+    from harness import algo
+    return algo.marking(tier)
 
 
 def hashseeds(tier):
